@@ -60,6 +60,12 @@ def run(ctx):
                     c["nsched"] = 2
                     c["nthreaded"] = 1
                     cases.append(c)
+    # grouped scans: the Blelloch prefix tree under TLC-generated schedules
+    for f in ("nancumsum", "ffill", "bfill"):
+        for nb in ((5, 8) if ctx.tier == "quick" else (3, 5, 8, 13)):
+            codes = [(i * 2 + i // 3) % 3 for i in range(nb * 2)]
+            vals = [gen.iv((i * 5) % 7 - 3) if i % 4 != 2 else gen.NAN for i in range(nb * 2)]
+            cases.append({"scan": True, "func": f, "vals": vals, "dtype": "f8", "codes": codes, "chunks": [2] * nb, "nsched": 10 if ctx.tier == "quick" else 30})
     for i, c in enumerate(cases):
         c["order_seed"] = (ctx.seed * 101 + i) % 9973
         c.setdefault("nsched", 6 if ctx.tier == "quick" else 20)
@@ -70,6 +76,7 @@ def run(ctx):
     if errs:
         raise MachineryFailure(f"{len(errs)} harness errors, first: {errs[0]['_harness_error']}\n{errs[0].get('_tb','')}")
     lines, by_id, trees, tree_owner = [], {}, [], {}
+    scan_lines, scan_owner = [], {}
     nsched = 0
     for rec in recs:
         case = rec["case"]
@@ -109,6 +116,11 @@ def run(ctx):
             t = dict(t, id=len(trees))
             tree_owner[t["id"]] = case
             trees.append(t)
+        if case.get("scan"):
+            scan_lines.append({"id": len(scan_lines), "kind": "return", "func": case["func"], "vals": case["vals"], "codes": case["codes"], "out": rec["scan_out"]})
+            scan_owner[len(scan_lines) - 1] = case
+            ctx.nontrivial((case["func"], "scan", len(case["chunks"])))
+            continue
         r = dict(case)
         r["groups"], r["out"] = rec["groups"], rec["out"]
         by_id[len(lines)] = r
@@ -122,6 +134,11 @@ def run(ctx):
     for f in fails:
         ctx.violation(by_id[f[1]], "final:" + "+".join(sorted(f[2])), {"expected": f[3], "got": by_id[f[1]]["out"]})
     ctx.add_traces(len(lines), stats, name="TraceReduce(final per split_every)")
+    if scan_lines:
+        fails, stats = tlc.validate_trace("TraceScan", scan_lines, tag="c03-scan", shards=1)
+        for f in fails:
+            ctx.violation(scan_owner[f[1]], "scan-final:" + "+".join(sorted(f[2])), None)
+        ctx.add_traces(len(scan_lines), stats, name="TraceScan(final)")
     # tree conformance (+ control: a tree with two leaves swapped must be rejected)
     ctrl = {"id": -7, "n": 3, "k": 2, "levels": [[[2, 1], [3]], [[2, 1, 3]]]}
     fails, stats = tlc.validate_trace("TraceTree", trees + [ctrl], tag="c03-tree", shards=2)
